@@ -18,6 +18,7 @@ structure Loaded (s : QState) : Prop where
   block : s.block = []
   added : s.added = []
   source : s.source = none
+  empty : s.empty = false
   gsize : s.kind = .grouped → 1 ≤ s.gsize
 
 theorem Loaded.wf {s : QState} (h : Loaded s) : WF s :=
@@ -140,5 +141,95 @@ theorem foldl_erase_take (l : List Nat) (g : Nat) (hn : l.Nodup) :
     | cons a l =>
       simp only [List.take_succ_cons, List.foldl_cons, List.erase_cons_head, List.drop_succ_cons]
       exact ih l (List.nodup_cons.mp hn).2
+
+/-! ### `Loaded` is what `append` builds -/
+
+/-- a stimulus as `append` accepts it for this property: ≥ 1 sample, ≥ 1 trial, a non-empty cycle of
+delays ≥ 0 -/
+def GoodEntry (e : Entry) : Prop :=
+  0 < e.len ∧ 1 ≤ e.trials ∧ e.delays ≠ [] ∧ ∀ d ∈ e.delays, 0 ≤ d
+
+/-- `queue.append(...)` once per entry -/
+def loadAll (s : QState) (es : List Entry) : QState := es.foldl (fun s e => (append s e).1) s
+
+structure PreLoaded (s : QState) : Prop where
+  ordering : s.ordering = List.range s.data.length
+  entries : ∀ (i : Nat) (e : Entry), s.data[i]? = some e → GoodEntry e
+  cursor : s.cursor = -1
+  complete : s.complete = false
+  block : s.block = []
+  added : s.added = []
+  source : s.source = none
+  empty : s.empty = false
+  gsize : s.kind = .grouped → (s.auto = true ∧ s.gsize = s.data.length) ∨ (s.auto = false ∧ 1 ≤ s.gsize)
+
+theorem PreLoaded_append {s : QState} (h : PreLoaded s) {e : Entry} (he : GoodEntry e) :
+    PreLoaded (append s e).1 := by
+  refine ⟨?_, ?_, h.cursor, h.complete, h.block, h.added, h.source, h.empty, ?_⟩
+  · simp [append, h.ordering, List.range_succ]
+  · intro i e' hi
+    simp only [append] at hi
+    by_cases hlt : i < s.data.length
+    · rw [List.getElem?_append_left hlt] at hi; exact h.entries i e' hi
+    · rw [List.getElem?_append_right (by omega)] at hi
+      cases hsub : i - s.data.length with
+      | zero => simp [hsub] at hi; rw [← hi]; exact he
+      | succ m => simp [hsub] at hi
+  · intro hk
+    rcases h.gsize hk with ⟨ha, hg⟩ | ⟨ha, hg⟩
+    · left; simp [append, ha, hg]
+    · right; simp [append, ha, hg]
+
+theorem PreLoaded_loadAll {s : QState} (h : PreLoaded s) (es : List Entry) (hes : ∀ e ∈ es, GoodEntry e) :
+    PreLoaded (loadAll s es) := by
+  induction es generalizing s with
+  | nil => exact h
+  | cons e es ih =>
+    exact ih (PreLoaded_append h (hes e (by simp))) (fun e' he' => hes e' (by simp [he']))
+
+theorem loadAll_data (s : QState) (es : List Entry) : (loadAll s es).data = s.data ++ es := by
+  induction es generalizing s with
+  | nil => simp [loadAll]
+  | cons e es ih =>
+    have := ih (append s e).1
+    simp only [loadAll, List.foldl_cons] at this ⊢
+    rw [this]; simp [append]
+
+theorem loadAll_oracle (s : QState) (es : List Entry) :
+    (loadAll s es).draws = s.draws ∧ (loadAll s es).perms = s.perms := by
+  induction es generalizing s with
+  | nil => simp [loadAll]
+  | cons e es ih =>
+    have := ih (append s e).1
+    simp only [loadAll, List.foldl_cons] at this ⊢
+    rw [this.1, this.2]; simp [append]
+
+/-- the queue object right after its constructor (BlockedFIFO: `auto`, group size starts at 0) -/
+def newQueue (kind : Kind) (keep : Bool) (gsize : Nat) (auto : Bool) (draws : List Nat)
+    (perms : List (List Nat)) : QState :=
+  { kind := kind, keep := keep, gsize := if auto then 0 else gsize, auto := auto, draws := draws,
+    perms := perms }
+
+/-- **Every queue built by the constructor and ≥ 1 `append`s is `Loaded`**: any policy, option and
+group size ≥ 1 (BlockedFIFO: `auto`, the group size counts the appends), any oracle streams. -/
+theorem Loaded_loadAll (kind : Kind) (keep : Bool) (gsize : Nat) (auto : Bool) (draws : List Nat)
+    (perms : List (List Nat)) (es : List Entry) (hne : es ≠ []) (hes : ∀ e ∈ es, GoodEntry e)
+    (hg : kind = .grouped → auto = false → 1 ≤ gsize) :
+    Loaded (loadAll (newQueue kind keep gsize auto draws perms) es) := by
+  have h0 : PreLoaded (newQueue kind keep gsize auto draws perms) := by
+    refine ⟨rfl, by intro i e h; simp [newQueue] at h, rfl, rfl, rfl, rfl, rfl, rfl, ?_⟩
+    intro hk
+    cases auto with
+    | true => left; simp [newQueue]
+    | false => right; exact ⟨rfl, by simpa [newQueue] using hg hk rfl⟩
+  have h := PreLoaded_loadAll h0 es hes
+  have hd := loadAll_data (newQueue kind keep gsize auto draws perms) es
+  have hdne : (loadAll (newQueue kind keep gsize auto draws perms) es).data ≠ [] := by
+    rw [hd]; simpa [newQueue] using hne
+  refine ⟨hdne, h.ordering, h.entries, h.cursor, h.complete, h.block, h.added, h.source, h.empty, ?_⟩
+  intro hk
+  rcases h.gsize hk with ⟨_, hgs⟩ | ⟨_, hgs⟩
+  · rw [hgs]; exact List.length_pos_iff.mpr hdne
+  · exact hgs
 
 end Psi.Queue
